@@ -288,6 +288,32 @@ mod client {
         }
     }
 
+    /// Verification hook (only with `--cfg sccache_verif`): `put_toolchain` with a
+    /// packager that writes `content` and then fails if `fail`, for the external harness.
+    #[cfg(sccache_verif)]
+    impl ClientToolchains {
+        pub fn verif_put_toolchain(
+            &self,
+            compiler_path: &Path,
+            weak_key: &str,
+            content: Vec<u8>,
+            fail: bool,
+        ) -> Result<Toolchain> {
+            struct Packager(Vec<u8>, bool);
+            impl ToolchainPackager for Packager {
+                fn write_pkg(self: Box<Self>, mut f: fs::File) -> Result<()> {
+                    f.write_all(&self.0)?;
+                    if self.1 {
+                        bail!("packaging failed")
+                    }
+                    Ok(())
+                }
+            }
+            self.put_toolchain(compiler_path, weak_key, Box::new(Packager(content, fail)))
+                .map(|(tc, _)| tc)
+        }
+    }
+
     #[cfg(test)]
     mod test {
         use crate::config;
@@ -513,6 +539,20 @@ impl TcCache {
         self.inner
             .insert_file(make_lru_key_path(&archive_id), path)?;
         Ok(Toolchain { archive_id })
+    }
+
+    /// Verification hook (only with `--cfg sccache_verif`): the client-side
+    /// `insert_file`, for the external harness.
+    #[cfg(all(sccache_verif, feature = "dist-client"))]
+    pub fn verif_insert_file(&mut self, path: &Path) -> Result<Toolchain> {
+        self.insert_file(path)
+    }
+
+    /// Verification hook (only with `--cfg sccache_verif`): read-only view of
+    /// the underlying disk cache, for the external harness.
+    #[cfg(sccache_verif)]
+    pub fn verif_inner(&self) -> &LruDiskCache {
+        &self.inner
     }
 }
 
